@@ -465,15 +465,18 @@ PROPS["C11"]["theorems"] += ["GoSup.Props.C09L.c11_restart_stops_first", "GoSup.
 PROPS["C11"]["level_text"] += (" Concurrent model CompLts: in every interleaving a restart reload boots the new children only after "
                                "the previous generation has been stopped and its context cancelled (c11_restart_stops_first, "
                                "c09_one_live_generation).")
-PROPS["C18"]["lean_modules"] += ["GoSup.Props.C09L", "GoSup.Props.C12L"]
+PROPS["C18"]["lean_modules"] += ["GoSup.Props.C09L", "GoSup.Props.C12L", "GoSup.Props.C16"]
 PROPS["C18"]["theorems"] += ["GoSup.Props.C09L.c09_none_survive", "GoSup.Props.C09L.c09_one_live_generation",
-                             "GoSup.Props.C12L.c12_one_open_instance", "GoSup.Props.C12L.c12_released"]
+                             "GoSup.Props.C12L.c12_one_open_instance", "GoSup.Props.C12L.c12_released",
+                             "GoSup.Props.C16.c16_every_sequence", "GoSup.Props.C16.c16_run_all_stopped"]
 PROPS["C18"]["level_text"] += (" Composite: in every interleaving of the concurrent model CompLts, once Run() has returned the context of "
                                "every generation of child goroutines ever started is done (c09_none_survive); while it runs, however many reloads have "
                                "restarted the children, at most one generation has a context that is not cancelled (c09_one_live_generation): "
                                "generations of child goroutines do not accumulate. HTTP server: in every interleaving of HttpLts at most one server "
                                "instance (with its serving goroutine) is open, whatever the number of reloads, and none once Run() has returned "
-                               "through its shutdown path (c12_one_open_instance, c12_released).")
+                               "through its shutdown path (c12_one_open_instance, c12_released). HTTP cluster: after any sequence of maps the live server "
+                               "instances are exactly the runners of the committed entries (the Acc invariant, c16_every_sequence) and none is live "
+                               "when Run() returns (c16_run_all_stopped), under the no-clash hypothesis of C16.")
 
 HTTP_RULE = ("histories on the real httpserver.Runner over loopback TCP (ephemeral ports): an initial configuration (1-3 routes whose "
              "handlers answer with their own name) and 1-4 operations - Reload with an unchanged / permuted / changed configuration "
